@@ -689,7 +689,7 @@ impl TimeZoneProvider for FsTzdbProvider {
     ) -> TemporalResult<TimeZoneOffset> {
         // NOTE: The rule evaluation works on 64 bit seconds; instants far outside of the
         // supported range (the trait takes any i128) cannot be represented there.
-        if utc_epoch.abs() > crate::NS_MAX_INSTANT + 2 * i128::from(crate::NS_PER_DAY) {
+        if utc_epoch.unsigned_abs() > (crate::NS_MAX_INSTANT + 2 * i128::from(crate::NS_PER_DAY)) as u128 {
             return Err(TemporalError::range()
                 .with_message("Instant nanoseconds are not within a valid epoch range."));
         }
